@@ -198,7 +198,73 @@ class Terms(object):
                 return env[name]
             ok, v = ctx.fold.try_eval(ast.Name(id=name, ctx=ast.Load()), func.mod, {})
             return C(v) if ok else ("p", name)
-        return self._from_defs(func, node, name, ds, env, depth)
+        t = self._not_none_arm(func, node, name, self._from_defs(func, node, name, ds, env, depth))
+        if isinstance(t, tuple) and t and t[0] == "ite" and not env:
+            # a decision that a None-or-value flag has already revealed (`size = None if c else n` ; `if size is None:` -> c holds in that arm)
+            known = self._revealed_conditions(func, node, depth)
+            for _i in range(3):
+                if isinstance(t, tuple) and t and t[0] == "ite" and t[1] in known:
+                    t = t[2] if known[t[1]] else t[3]
+                else:
+                    break
+        return t
+
+    def _revealed_conditions(self, func, node, depth):
+        """{cond term: truth value} implied by must-facts of the form `v is None` / `v is not None` at node, for variables v that are None in exactly
+        one arm of a decision and something that is never None in the other."""
+        cache = self.__dict__.setdefault("_revealed_cache", {})
+        k = (func, node)
+        if k in cache:
+            return cache[k]
+        cache[k] = {}               # (re-entrancy: nothing is revealed while we are computing)
+        out = {}
+        if depth <= self.max_depth:
+            from .dataflow import key as _key
+            from .rules.c06 import eval_dump
+            nk = _key(ast.Constant(value=None))
+            df = self.ctx.df(func)
+            for fa in df.facts(node):
+                if fa[0][0] == "is" and len(fa[0]) == 3 and nk in fa[0][1:]:
+                    other = [x for x in fa[0][1:] if x != nk]
+                    if len(other) != 1:
+                        continue
+                    try:
+                        e = eval_dump(other[0])
+                    except Exception:   # noqa
+                        continue
+                    if not isinstance(e, ast.Name):
+                        continue
+                    ds = df.reaching(node, e.id)
+                    if not ds:
+                        continue
+                    t = self._from_defs(func, node, e.id, ds, {}, depth + 1)
+                    if not (isinstance(t, tuple) and t and t[0] == "ite"):
+                        continue
+                    is_none = fa[1]
+                    if t[2] == C(None) and t[3] != C(None):
+                        if not is_none:
+                            out[t[1]] = False                   # not None: the None arm was not taken
+                        elif never_none(t[3]):
+                            out[t[1]] = True
+                    elif t[3] == C(None) and t[2] != C(None):
+                        if not is_none:
+                            out[t[1]] = True
+                        elif never_none(t[2]):
+                            out[t[1]] = False
+        cache[k] = out
+        return out
+
+    def _not_none_arm(self, func, node, name, t):
+        """`v = None if c else X` (either spelling) read where the must-facts say `v is not None` (or v is truthy): the value is X - the None arm
+        cannot have been taken."""
+        if not (isinstance(t, tuple) and t and t[0] == "ite" and (t[2] == C(None) or t[3] == C(None)) and t[2] != t[3]):
+            return t
+        from .dataflow import key as _key
+        nk, vk = _key(ast.Constant(value=None)), _key(ast.Name(id=name, ctx=ast.Load()))
+        for fa in self.ctx.df(func).facts(node):
+            if (fa[0] == ("is",) + tuple(sorted([vk, nk])) and fa[1] is False) or (fa[0] == ("truthy", vk) and fa[1] is True):
+                return t[3] if t[2] == C(None) else t[2]
+        return t
 
     def _from_defs(self, func, node, name, ds, env, depth):
         alts = set()
@@ -926,6 +992,23 @@ METHOD_SIGS = {
     ".decode": ["encoding", "errors"],
     ".encode": ["encoding", "errors"],
 }
+
+
+def never_none(t):
+    """terms that cannot denote None: literals other than None, fields of an unpacked struct, lengths, arithmetic, displays"""
+    if not isinstance(t, tuple) or not t:
+        return False
+    if t[0] == "c":
+        return t[1] is not None
+    if t[0] in ("sub", "proj") and isinstance(t[1], tuple) and t[1] and t[1][0] == "call" and t[1][1] == "struct.unpack":
+        return True
+    if t[0] in ("LEN", "tuple", "list", "CONCAT", "new", "MOD32", "BYTESUM", "ORDSUM"):
+        return True
+    if t[0] == "op" and t[1] in ("+", "-", "*", "//", "%", "&", "|", "<<", ">>"):
+        return True
+    if t[0] == "call" and t[1] in ("builtins.len", "builtins.int", "builtins.bytes", "builtins.bytearray", "builtins.str", "builtins.bool", "builtins.min", "builtins.max"):
+        return True
+    return False
 
 
 def crepr(t):
